@@ -32,6 +32,9 @@ fn marshal_array(
         marshal_param(p, ctx)?;
     }
     let len = ctx.buf.len() - content_pos;
+    if len > crate::wire::unmarshal::MAX_ARRAY_LEN {
+        return Err(MarshalError::MessageTooLong);
+    }
     insert_u32(
         ctx.byteorder,
         len as u32,
@@ -73,6 +76,9 @@ fn marshal_dict(dict: &params::DictMap, ctx: &mut MarshalContext) -> Result<(), 
         marshal_param(value, ctx)?;
     }
     let len = ctx.buf.len() - content_pos;
+    if len > crate::wire::unmarshal::MAX_ARRAY_LEN {
+        return Err(MarshalError::MessageTooLong);
+    }
     insert_u32(
         ctx.byteorder,
         len as u32,
